@@ -697,7 +697,8 @@ func bv(b bool) sx.Sexp        { return sx.T("b", sx.Bool(b)) }
 func av(xs ...sx.Sexp) sx.Sexp { return sx.T("a", xs...) }
 
 var numStrs = []string{"0", "7", "-7", "+7", "15", "017", "0x1F", "0X1f", "0b11", "101", "ff", "- 7", "+\t3", " 5", "5 ", "", "-", "1_0", "00", "08", "9223372036854775807",
-	"9223372036854775808", "-9223372036854775808", "-9223372036854775809", "12a", "3.5", "1e3", "٣"}
+	"9223372036854775808", "-9223372036854775808", "-9223372036854775809", "12a", "3.5", "1e3", "٣",
+	"0xff", "0XFF", "0b101", "0B1", "008", "- 5", "0x", "0b", "0b2", "0xg", "-0xff", "- 0b1", "0x7fffffffffffffff", "-0x8000000000000000", "0xffffffffffffffff", "0x0", "0b0", "00x1"}
 var boolStrs = []string{"true", "false", "yes", "no", "y", "n", "TRUE", "No", "N", "maybe", "", "t", "Yes "}
 
 // witness argument lists of the three modelled constructors
